@@ -121,6 +121,9 @@ struct Explorer
             add("ATC", static_cast<int>(i));
             add("GET", static_cast<int>(i));
         }
+        add("AT", -1); // the largest index there is (an index computed as size() - 1 on an empty container)
+        add("ATC", -1);
+        add("EB0", 1 + static_cast<int>(s % cfg.nvalues)); // emplace_back() without arguments
         for (size_t i = 0; i < s; i++)
             add("WR", static_cast<int>(i), 1 + static_cast<int>(i % cfg.nvalues));
         for (size_t k = 0; k <= std::min(s + 1, c); k++)
@@ -625,7 +628,19 @@ struct Explorer
                 apply("NEW", cap);
                 const bool copyable = std::is_copy_constructible<T>::value;
                 for (int i = 0; i < cap; i++)
-                    apply(i % 3 == 0 || !copyable ? "EB" : i % 3 == 1 ? "PB" : "IM", value());
+                {
+                    // around the fill levels where an implementation may switch paths or grow its storage the appended value is
+                    // one of the container's own elements (first / last), otherwise a fresh value
+                    bool boundary = false;
+                    for (int b : { 16, 32, 64, 128, 256 })
+                        boundary = boundary || (i >= b - 1 && i <= b + 1);
+                    if (boundary && copyable && i > 0)
+                        apply(i % 3 == 0 ? "EBS" : i % 3 == 1 ? "PBS" : "ICS", i % 2 ? 0 : i - 1);
+                    else if (i % 7 == 6)
+                        apply("EB0", value());
+                    else
+                        apply(i % 3 == 0 || !copyable ? "EB" : i % 3 == 1 ? "PB" : "IM", value());
+                }
                 apply("EB", value()); // full: must throw and change nothing
                 apply("EM", cap / 2, value());
                 for (int i = 0; i < cap / 4; i++)
